@@ -67,6 +67,42 @@ type arpResp struct {
 	pad   bool // answer padded to the 46-byte Ethernet minimum, as on a real wire
 }
 
+// variant switches on the features of the second stream: a client whose long hardware address begins with another
+// (preferably reserved) client's address; two clients whose long identifiers share their first 16-19 bytes; requests from
+// 0.0.0.0 that carry a ciaddr (in next); the returned kind of ARP noise (0 none, 1 runt frames, 2 answers about other hosts).
+func (g *srvGen) variant(r2 *rand.Rand) int {
+	g.r2 = r2
+	if len(g.clients) >= 2 && r2.Intn(2) == 0 {
+		victim := g.clients[0]
+		for _, c := range g.clients {
+			if c.static {
+				victim = c
+				break
+			}
+		}
+		for _, c := range g.clients {
+			if c != victim && !c.static {
+				c.mac = append(append([]byte{}, victim.mac[:6]...), randBytes(r2, 1+r2.Intn(10))...)
+				if r2.Intn(2) == 0 {
+					c.cid = nil
+				}
+				break
+			}
+		}
+	}
+	if len(g.clients) >= 2 && r2.Intn(2) == 0 {
+		pre := randBytes(r2, 16+r2.Intn(4))
+		pre[0] = 0xff
+		a, b := g.clients[len(g.clients)-1], g.clients[len(g.clients)-2]
+		a.cid = append(append([]byte{}, pre...), 1, byte(r2.Intn(256)))
+		b.cid = append(append([]byte{}, pre...), 2)
+	}
+	if r2.Intn(2) == 0 {
+		return 1 + r2.Intn(2)
+	}
+	return 0
+}
+
 type outFrame struct {
 	t   uint64
 	eth []byte
@@ -102,6 +138,7 @@ type srvRun struct {
 	rounds []roundObs
 	cancel context.CancelFunc
 	maxBusy time.Duration
+	noise   int // ARP traffic that is no answer to a probe: 1 runt frames, 2 answers about other hosts
 }
 
 func (s *srvRun) rel() uint64 { return uint64(time.Since(s.start)) }
@@ -117,6 +154,17 @@ func startServer(t *testing.T, cfg srvCfg) (*srvRun, error) {
 			return
 		}
 		target := binary.BigEndian.Uint32(f.Payload[24:28])
+		switch s.noise { // traffic on the segment that is no answer to the probe
+		case 1:
+			runt := make([]byte, []int{1, 10, 27}[int(target)%3])
+			copy(runt, []byte{0, 1, 8, 0, 6, 4, 0, 2})
+			time.AfterFunc(time.Millisecond, func() { s.seg.Inject(rsocks.KindARP, runt) })
+		case 2:
+			other := make([]byte, 28)
+			copy(other, []byte{0, 1, 8, 0, 6, 4, 0, 2, 2, 0xdd, 0, 0, 0, 9})
+			binary.BigEndian.PutUint32(other[14:], target^0x00010000)
+			time.AfterFunc(time.Millisecond, func() { s.seg.Inject(rsocks.KindARP, other) })
+		}
 		if r, ok := s.arp[target]; ok {
 			reply := make([]byte, 28)
 			if r.pad {
@@ -276,6 +324,7 @@ func (cl *simClient) msg(typ byte, flags uint16, ciaddr uint32, extra ...wopt) w
 
 type srvGen struct {
 	r        *rand.Rand
+	r2       *rand.Rand // second stream: features added later draw from it, so that the histories of older seeds stay as they were
 	cfg      srvCfg
 	clients  []*simClient
 	pool     []uint32
@@ -411,7 +460,7 @@ func (g *srvGen) next() ([]byte, []arpResp, *simClient, byte) {
 		case 0:
 			arp = append(arp, arpResp{a, []byte{0x02, 0xcc, 0, 0, 0, byte(a)}, time.Duration(1+r.Intn(589)) * time.Millisecond, r.Intn(2) == 0})
 		case 1:
-			arp = append(arp, arpResp{a, cl.mac, time.Duration(1+r.Intn(589)) * time.Millisecond, r.Intn(2) == 0})
+			arp = append(arp, arpResp{a, cl.mac[:6], time.Duration(1+r.Intn(589)) * time.Millisecond, r.Intn(2) == 0})
 		case 2:
 			arp = append(arp, arpResp{a, []byte{0x02, 0xcc, 0, 0, 0, byte(a)}, time.Duration(610+r.Intn(300)) * time.Millisecond, false})
 		}
@@ -468,6 +517,9 @@ func (g *srvGen) next() ([]byte, []arpResp, *simClient, byte) {
 		if r.Intn(10) == 0 {
 			dst = c.selfIP + 7 // unicast to somebody else
 		}
+		if g.r2 != nil && g.r2.Intn(4) == 0 {
+			src = 0
+		}
 		m = cl.msg(3, flags, ip)
 	case k < 14: // REBINDING
 		kind = 3
@@ -476,6 +528,13 @@ func (g *srvGen) next() ([]byte, []arpResp, *simClient, byte) {
 			ip = g.someAddr()
 		}
 		src = ip
+		if g.r2 != nil && g.r2.Intn(4) == 0 {
+			src = 0 // no source address yet, but a ciaddr
+			if g.r2.Intn(2) == 0 {
+				m = cl.msg(3, flags, g.someAddr())
+				break
+			}
+		}
 		m = cl.msg(3, flags, ip)
 	case k < 15: // other message types, own hardware address of the server, replies
 		kind = 9
@@ -545,12 +604,17 @@ func runServerHistory(t *testing.T, c *caseWriter, tags string, kind string, see
 	synctest.Test(t, func(t *testing.T) {
 		r := rand.New(rand.NewSource(seedv))
 		g := newSrvGen(r)
+		noise := 0
+		if kind == "variant" {
+			noise = g.variant(rand.New(rand.NewSource(seedv ^ 0x5eed5eed)))
+		}
 		s, err := startServer(t, g.cfg)
 		if err != nil {
 			t.Logf("server.New failed for generated config: %v", err)
 			return
 		}
 		defer s.stop()
+		s.noise = noise
 		n := 3 + r.Intn(30)
 		for i := 0; i < n; i++ {
 			pkt, arp, cl, _ := g.next()
@@ -590,7 +654,11 @@ func TestServerHistories(t *testing.T) {
 		n = scale(40, 600)
 	}
 	for i := 0; i < n; i++ {
-		runServerHistory(t, c, serverTags(), "sequential", seed()*1000003+int64(i))
+		kind := "sequential"
+		if i%3 == 2 {
+			kind = "variant"
+		}
+		runServerHistory(t, c, serverTags(), kind, seed()*1000003+int64(i))
 	}
 }
 
